@@ -191,6 +191,47 @@ def _rel(path):
     return None
 
 
+FN_RE = re.compile(r"\bfn\s+([A-Za-z_][A-Za-z0-9_]*)")
+PUNCT_RE = re.compile(r"^[\s{}()\[\];,]*(else)?[\s{}()\[\];,]*$")
+
+
+def fn_name_at(src_lines, line):
+    """name of the nearest `fn` item at or before the (1-based) line; '' if none"""
+    for i in range(min(line, len(src_lines)) - 1, -1, -1):
+        m = FN_RE.search(src_lines[i])
+        if m:
+            return m.group(1)
+    return ""
+
+
+def load_tolerance(prop):
+    """{(file, fn): number of executable lines of that function that the property's producers never
+    executed on the PINNED text} -- unreachable fallback arms, panics for impossible inputs.  A rewrite
+    of such a function may carry the same number of unexecuted lines without the correspondence being
+    any weaker than it was (lib/pinned_cov.json, written by lib/cov_baseline.py --write)."""
+    path = os.path.join(kv.VERIF, "lib", "pinned_cov.json")
+    if not os.path.exists(path):
+        return {}
+    d = json.load(open(path)).get(prop, {})
+    return {tuple(k.split("::", 1)): v for k, v in d.items()}
+
+
+def apply_tolerance(gap_list, tolerance, repo=None):
+    """split the gaps into (flagged, tolerated) using the per-function tolerance"""
+    repo = repo or kv.REPO
+    by_fn = {}
+    for g in gap_list:
+        src = open(os.path.join(repo, g["file"]), errors="replace").read().split("\n")
+        by_fn.setdefault((g["file"], fn_name_at(src, g["line"])), []).append(g)
+    flagged, tolerated = [], []
+    for key, gs in by_fn.items():
+        if len(gs) <= tolerance.get(key, 0):
+            tolerated.extend(gs)
+        else:
+            flagged.extend(gs)
+    return flagged, tolerated
+
+
 def gaps(changed, lines, funcs, repo=None):
     """changed lines that have coverage data, lie in a function that was entered, and were never
     executed.  -> (gap list [{file, line, text}], undecidable {file: n lines without data})"""
@@ -208,15 +249,21 @@ def gaps(changed, lines, funcs, repo=None):
                 continue
             if data[l] > 0:
                 continue
+            if PUNCT_RE.match(src[l - 1]):
+                continue            # a closing brace / `else` alone on its line is not code
             entered = any(lo <= l <= hi and c > 0 for lo, hi, c in fl)
             if entered:
                 out.append({"file": rel, "line": l, "text": src[l - 1].strip()[:160]})
     return out, undec
 
 
-def gaps_for(prop_cfg, tier, seed, changed, huge=False):
+def gaps_for(prop_cfg, tier, seed, changed, huge=False, prop=None):
     lines, funcs, err = run_coverage(prop_cfg["groups"], tier, seed, huge=huge)
     if lines is None:
         return None, {}, err
     g, undec = gaps(changed, lines, funcs)
+    if prop:
+        g, tolerated = apply_tolerance(g, load_tolerance(prop))
+        if tolerated:
+            undec["(tolerated: as many unexecuted lines as the pinned text had in the same function)"] = len(tolerated)
     return g, undec, ""
